@@ -831,15 +831,6 @@ impl Part for MaterialisePart {
     }
 }
 
-/// Entry point of the libFuzzer target `pbt_c19` (fuzz/fuzz_targets/pbt_c19.rs includes this file as a module).
-#[allow(dead_code)]
-pub fn fuzz_one(data: &[u8]) -> Vec<Failure> {
-    thread_local! {
-        static S: (BoxedStrategy<<QueryPart as Part>::Case>, std::collections::HashSet<String>) = (QueryPart.strategy(Tier::Thorough), open_known_sigs_of("C19"));
-    }
-    S.with(|(st, known)| kvh::engine::fuzz_one(&QueryPart, st, data, known))
-}
-
 fn main() {
     let mut s = Session::start(
         "C19",
@@ -857,7 +848,5 @@ fn main() {
     s.assume("materialise: only the property's clause 'ends in a consistent fact set' is asserted; 'superset of a maximal repair' and 'added facts derivable' are recorded as stat: classes");
     s.run(&QueryPart);
     s.run(&MaterialisePart);
-    // coverage-guided search over the same strategy and oracle (libFuzzer drives the random stream): thorough tier
-    s.fuzz_campaign(&QueryPart, "libfuzzer:query", "pbt_c19", 3_000, 8, 8192);
     std::process::exit(s.finish());
 }
